@@ -378,7 +378,7 @@ func (an *Absint) isPure(f *ssa.Function, depth int) bool {
 				return
 			}
 			name := FuncName(g)
-			if strings.HasPrefix(name, "(encoding/binary.bigEndian).Uint") || strings.HasPrefix(name, "(encoding/binary.littleEndian).Uint") {
+			if strings.HasPrefix(name, "encoding/binary.bigEndian.Uint") || strings.HasPrefix(name, "encoding/binary.littleEndian.Uint") {
 				return
 			}
 			if !an.isPure(g, depth+1) {
@@ -412,7 +412,7 @@ func (a *absFn) key(v ssa.Value) string {
 			pure = true
 		} else if g := x.Common().StaticCallee(); g != nil && a.an.isPure(g, 0) {
 			pure = true
-		} else if g != nil && strings.HasPrefix(FuncName(g), "(encoding/binary.bigEndian).Uint") {
+		} else if g != nil && strings.HasPrefix(FuncName(g), "encoding/binary.bigEndian.Uint") {
 			pure = true
 		}
 		if pure {
@@ -1391,14 +1391,14 @@ func (a *absFn) oblige(in ssa.Instruction, kind string, goal LinForm, desc strin
 }
 
 var needLenIntrinsics = map[string]int64{
-	"(encoding/binary.bigEndian).Uint16":    2,
-	"(encoding/binary.bigEndian).Uint32":    4,
-	"(encoding/binary.bigEndian).Uint64":    8,
-	"(encoding/binary.bigEndian).PutUint16": 2,
-	"(encoding/binary.bigEndian).PutUint32": 4,
-	"(encoding/binary.bigEndian).PutUint64": 8,
-	"(encoding/binary.littleEndian).Uint16": 2,
-	"(encoding/binary.littleEndian).Uint32": 4,
+	"encoding/binary.bigEndian.Uint16":    2,
+	"encoding/binary.bigEndian.Uint32":    4,
+	"encoding/binary.bigEndian.Uint64":    8,
+	"encoding/binary.bigEndian.PutUint16": 2,
+	"encoding/binary.bigEndian.PutUint32": 4,
+	"encoding/binary.bigEndian.PutUint64": 8,
+	"encoding/binary.littleEndian.Uint16": 2,
+	"encoding/binary.littleEndian.Uint32": 4,
 }
 
 // Obligations computes (once) the bounds obligations of the function.
